@@ -39,6 +39,7 @@ pub fn run(cfg: &RunCfg) -> Ctx {
     all.floor("enforce.min_is_configured", 5);
     all.floor("enforce.malformed_header", 5);
     all.floor("enforce.zero_timeout", 5);
+    all.floor("enforce.second_connection", 50);
     all
 }
 
@@ -264,7 +265,7 @@ fn enforce_case(rng: &mut Rng, ctx: &mut Ctx) {
     let shape = if rng.bool() { Shape::Unary } else { Shape::ServerStream };
     let script = Script { latency_ms: latency, msgs: vec![crate::pb::Msg { data: vec![1; 10], seq: 1, tag: "ok".into() }], ..Default::default() };
     let spec = CallSpec { id: "t0".into(), shape, req_msgs: vec![crate::pb::Msg::default()], req_meta: malformed.map(|m| vec![("grpc-timeout".to_string(), crate::gen::MVal::Ascii(m.to_string()))]).unwrap_or_default(), req_pend: vec![], req_gaps_ms: vec![], timeout: header_ms.map(Duration::from_millis), pingpong: None };
-    let sc = Scenario {
+    let mut sc = Scenario {
         conns: 1,
         lazy: vec![rng.bool()],
         conn_start_ms: vec![0],
@@ -280,7 +281,22 @@ fn enforce_case(rng: &mut Rng, ctx: &mut Ctx) {
         server_timeout: server_ms.map(Duration::from_millis),
         endpoint_timeout: endpoint_ms.map(Duration::from_millis), max_connection_age: None, opts: 0, listener_faults: vec![],
     };
-    let case_json = json!({"shape": format!("{:?}", shape), "caller_timeout_ms": header_ms, "server_timeout_ms": server_ms, "endpoint_timeout_ms": endpoint_ms, "handler_latency_ms": latency, "effective_ms": eff, "malformed_caller_header": malformed});
+    // half of the cases put the judged call on the server's SECOND connection: a warm-up call on
+    // a first connection precedes it (the configured timeouts hold for every connection)
+    let second_conn = (sc.seed >> 11) & 1 == 1;
+    if second_conn {
+        ctx.count("enforce.second_connection");
+        sc.conns = 2;
+        sc.lazy = vec![sc.lazy[0], sc.lazy[0]];
+        sc.conn_start_ms = vec![0, 0];
+        let warm = Script { latency_ms: 0, msgs: vec![crate::pb::Msg { data: vec![2; 3], seq: 1, tag: "warm".into() }], ..Default::default() };
+        sc.calls.insert(0, PlannedCall { conn: 0, start_ms: 0, shape: Shape::Unary, script: warm, id: "w0".into() });
+        sc.specs.insert(0, CallSpec { id: "w0".into(), shape: Shape::Unary, req_msgs: vec![crate::pb::Msg::default()], req_meta: vec![], req_pend: vec![], req_gaps_ms: vec![], timeout: None, pingpong: None });
+        sc.calls[1].conn = 1;
+        sc.calls[1].start_ms += 10;
+    }
+    let judged = sc.calls.len() - 1;
+    let case_json = json!({"second_connection": second_conn, "shape": format!("{:?}", shape), "caller_timeout_ms": header_ms, "server_timeout_ms": server_ms, "endpoint_timeout_ms": endpoint_ms, "handler_latency_ms": latency, "effective_ms": eff, "malformed_caller_header": malformed});
     if malformed.is_some() {
         ctx.count("enforce.malformed_header");
     }
@@ -292,12 +308,12 @@ fn enforce_case(rng: &mut Rng, ctx: &mut Ctx) {
     };
     ctx.begin(&format!("{}{}", rel, if malformed.is_some() { "-malformed-header" } else { "" }), case_json.clone());
     let out = run_scenario(&sc);
-    let Some(view) = out.views[0].clone() else {
+    let Some(view) = out.views[judged].clone() else {
         ctx.violation("call-open", "call did not complete within 3600 virtual seconds".into());
         return;
     };
-    let start = out.events.iter().find(|e| e.kind == "call_start").map(|e| e.t_ms).unwrap_or(0);
-    let end = out.events.iter().find(|e| e.kind == "call_end").map(|e| e.t_ms).unwrap_or(0);
+    let start = out.events.iter().find(|e| e.kind == "call_start" && e.id == "t0").map(|e| e.t_ms).unwrap_or(0);
+    let end = out.events.iter().find(|e| e.kind == "call_end" && e.id == "t0").map(|e| e.t_ms).unwrap_or(0);
     let elapsed = end - start;
     let failed: Option<StatusView> = view.call_err.clone().or(match &view.end { Some(Err(s)) => Some(s.clone()), _ => None });
     match rel {
